@@ -248,6 +248,17 @@ class SpecEval:
             raise Unsupported("old() outside a postcondition")
         return self.eval(node.args[0], Env(env.old, env.old, env.locals, env.ex))
 
+    def f_final(self, node, env):
+        """final(p): the content, at exit, of a container parameter the function changes in place (declared in `mutates`).
+        In a caller the value comes from the call site's write-back; in the function's own proof it is the variable's current value."""
+        name = node.args[0].id
+        fin = env.locals.get("__final__")
+        if fin is not None and name in fin:
+            return fin[name]
+        if name not in env.st.vars:
+            raise Unsupported("final(%s): not a variable of the function" % name)
+        return self.lookup_name(name, Env(env.st, env.old, {k: v for k, v in env.locals.items() if k != name}, env.ex))
+
     def f_implies(self, node, env):
         a, b = self.boolean(node.args[0], env), self.boolean(node.args[1], env)
         return SV(ty.Bool, z3.Implies(a, b))
